@@ -24,7 +24,7 @@ from pathlib import PurePosixPath
 
 from core.effects import Effects
 from core.flow import Flow, Spec
-from core.guards import atom, f_not, implies
+from core.guards import atom, atoms_of, f_not, implies
 from core.loader import AnalysisError, ClassInfo, FuncInfo, Repo, ancestors, header, norm, own_nodes, parent
 from core.report import Result
 from core.types import elem_type, members
@@ -508,7 +508,7 @@ def rule_r1_r3(cx: Ctx, cons: list[FuncInfo]) -> Flow:
     flow1 = run_flow(cx, cons, {})
     cands = fl.candidates(flow1)
     E = Effects(repo, cx.T)
-    seen_keys: set[str] = set()
+    seen_keys: set[tuple[str, str]] = set()
     n_flat = 0
     cands.sort(key=lambda fe: (fe[0].fq, getattr(fe[1], "lineno", 0), getattr(fe[1], "col_offset", 0), -(getattr(fe[1], "end_lineno", 0) * 10000 + getattr(fe[1], "end_col_offset", 0))))
     covered: set[int] = set()
@@ -531,15 +531,17 @@ def rule_r1_r3(cx: Ctx, cons: list[FuncInfo]) -> Flow:
         if verdict == "unknown":
             if fl.depends_on_limit(f, e, flow1):
                 fl.flat_exprs[id(e)] = verdict
-                if key not in seen_keys:
-                    seen_keys.add(key)
+                if (key, verdict) not in seen_keys:
+                    seen_keys.add((key, verdict))
                     res.undecide("C09.R3", key, f"`{norm(e, 70)}` depends on the level limit but its value cannot be tabulated ({v.get('why', '')})", where(f, e))
             continue
         fl.flat_exprs[id(e)] = verdict
         n_flat += 1
-        if key in seen_keys:
+        if verdict != "flatten":
+            key = repo.key(f, stmt_of(e)) + f" [{norm(e, 50)}]"  # a wrong truncation is reported per site
+        if (key, verdict) in seen_keys:
             continue
-        seen_keys.add(key)
+        seen_keys.add((key, verdict))
         ok_id = verdict != "wrong-identity"
         ok_cut = verdict == "flatten"
         res.add("C09.R3", f"{key}::identity without limit", ok_id, "without a limit names are unchanged" if ok_id else f"names are not returned unchanged when no limit is set: {v['example']}", where(f, e), kind="decision-table")
@@ -751,7 +753,7 @@ def _flat_comparisons(cons: list[FuncInfo], flow: Flow) -> list[tuple[FuncInfo, 
     out = []
     for f in cons:
         for n in own_nodes(f.node):
-            if isinstance(n, ast.Compare) and len(n.ops) == 1 and isinstance(n.ops[0], (ast.Eq, ast.NotEq, ast.Is, ast.IsNot)):
+            if isinstance(n, ast.Compare) and len(n.ops) == 1 and isinstance(n.ops[0], (ast.Eq, ast.NotEq)):
                 a, b = set(flow.tags(n.left)) - {"LIMIT"}, set(flow.tags(n.comparators[0])) - {"LIMIT"}
                 if a == {"FLAT"} and b == {"FLAT"}:
                     out.append((f, n))
@@ -781,8 +783,13 @@ def rule_r2(cx: Ctx, cons: list[FuncInfo], flow: Flow) -> None:
                 if ok is None:
                     res.undecide("C09.R2", key, why, where(f, node))
                     continue
-                if not ok and flat_cmp:
-                    cf, cn = flat_cmp[0]
+                try:
+                    in_guard = atoms_of(guard_formula(f, node))
+                except AnalysisError:
+                    in_guard = set()
+                elsewhere = [(cf, cn) for cf, cn in flat_cmp if _eq_atom(cn.left, cn.comparators[0])[1] not in in_guard]
+                if not ok and elsewhere and len(elsewhere) == len(flat_cmp):
+                    cf, cn = elsewhere[0]
                     res.undecide("C09.R2", key, f"`{norm(node, 60)}` is not provably guarded by a test that its two ends differ, but {cf.qualname} compares two flattened names in `{norm(cn, 50)}`: the connection between that test and this insertion is not understood", where(f, node))
                     continue
                 res.add("C09.R2", key, ok, f"an edge is only added between two different (flattened) nodes ({why})" if ok else f"`{norm(node, 70)}` is not guarded by a test that `{norm(u, 30)}` and `{norm(v, 30)}` differ: sub modules collapsed into one node import 'themselves'", where(f, node), kind="dominance")
